@@ -1396,4 +1396,469 @@ theorem row_index_unique (tbl : List OptionRow) (ht : TableOk tbl) (i j : Nat) (
   exact ⟨rfl, Option.some.inj hj⟩
 
 
+/-! ### the handlers' option pipeline -/
+
+section
+variable {DT : Type} (C : DTCodec DT)
+
+theorem fieldIdx_spec (tbl : List OptionRow) (name : String) (i : Nat) (h : fieldIdx tbl name = some i) :
+    ∃ r, tbl[i]? = some r ∧ r.fieldName = name := by
+  unfold fieldIdx at h
+  obtain ⟨hlt, hp, _⟩ := List.findIdx?_eq_some_iff_getElem.mp h
+  exact ⟨tbl[i], by simp [hlt], by simpa using hp⟩
+
+theorem setFieldByName_other (tbl : List OptionRow) (o : Nat → Val DT) (name : String) (v : Val DT)
+    (i : Nat) (r : OptionRow) (hr : tbl[i]? = some r) (hn : r.fieldName ≠ name) :
+    setFieldByName tbl o name v i = o i := by
+  unfold setFieldByName
+  cases h : fieldIdx tbl name with
+  | none => rfl
+  | some j =>
+    obtain ⟨r', hr', hn'⟩ := fieldIdx_spec tbl name j h
+    have : i ≠ j := by
+      intro e; subst e; rw [hr] at hr'; cases hr'; exact hn hn'
+    simp [setField, this]
+
+theorem setFieldByName_cases (tbl : List OptionRow) (o : Nat → Val DT) (name : String) (v : Val DT) (i : Nat) :
+    setFieldByName tbl o name v i = o i ∨
+      (setFieldByName tbl o name v i = v ∧ ∃ r, tbl[i]? = some r ∧ r.fieldName = name) := by
+  unfold setFieldByName
+  cases h : fieldIdx tbl name with
+  | none => exact Or.inl rfl
+  | some j =>
+    by_cases e : i = j
+    · subst e; right; exact ⟨by simp [setField], fieldIdx_spec tbl name i h⟩
+    · left; simp [setField, e]
+
+theorem removeUnsupported_dropped (K : FilterConsts) (tbl : List OptionRow) (features : List String)
+    (dflt o : Nat → Val DT) (i : Nat) (r : OptionRow) (hr : tbl[i]? = some r)
+    (hd : dropsOption K features r = true) : removeUnsupported K tbl features dflt o i = dflt i := by
+  unfold removeUnsupported; simp [hr, hd]
+
+theorem removeUnsupported_kept (K : FilterConsts) (tbl : List OptionRow) (features : List String)
+    (dflt o : Nat → Val DT) (i : Nat) (r : OptionRow) (hr : tbl[i]? = some r)
+    (hd : dropsOption K features r = false) : removeUnsupported K tbl features dflt o i = o i := by
+  unfold removeUnsupported; simp [hr, hd]
+
+theorem removeUnsupported_cases (K : FilterConsts) (tbl : List OptionRow) (features : List String)
+    (dflt o : Nat → Val DT) (i : Nat) :
+    removeUnsupported K tbl features dflt o i = o i ∨ removeUnsupported K tbl features dflt o i = dflt i := by
+  unfold removeUnsupported
+  cases tbl[i]? with
+  | none => exact Or.inl rfl
+  | some r => by_cases h : dropsOption K features r = true <;> simp [h]
+
+theorem removeUnused_cases (K : FilterConsts) (tbl : List OptionRow) (mode : Bytes) (o : Nat → Val DT) (i : Nat) :
+    removeUnused K tbl mode o i = none ∨ removeUnused K tbl mode o i = some (o i) := by
+  unfold removeUnused
+  cases tbl[i]? with
+  | none => exact Or.inr rfl
+  | some r =>
+    simp only
+    split
+    · exact Or.inl rfl
+    · exact Or.inr rfl
+
+/-- where a value the parser leaves in a field comes from: the defaults, or one of the arguments -/
+theorem convertOptions_origin (tbl : List OptionRow) (A : List (Bytes × Bytes)) (dflt res : Nat → Val DT)
+    (h : convertOptions C tbl dflt A = .ok res) (i : Nat) :
+    res i = dflt i ∨ ∃ kv ∈ A, ∃ r, findRow tbl kv.1 = some i ∧ tbl[i]? = some r ∧
+      fromString C r.kind kv.2 = .ok (res i) := by
+  induction A generalizing dflt with
+  | nil => simp [convertOptions] at h; subst h; exact Or.inl rfl
+  | cons kv rest ih =>
+    simp only [convertOptions] at h
+    cases hs : convertStep C tbl dflt kv with
+    | error e => rw [hs] at h; simp at h
+    | ok acc =>
+      rw [hs] at h
+      rcases ih acc h with h1 | ⟨x, hx, r, hf, hr, hv⟩
+      · -- the value is what the step left
+        unfold convertStep at hs
+        cases hf : findRow tbl kv.1 with
+        | none => rw [hf] at hs; simp at hs; subst hs; exact Or.inl h1
+        | some j =>
+          rw [hf] at hs
+          cases hr : tbl[j]? with
+          | none => simp [hr] at hs; subst hs; exact Or.inl h1
+          | some r =>
+            simp only [hr] at hs
+            cases hv : fromString C r.kind kv.2 with
+            | error e =>
+              rw [hv] at hs
+              cases e with
+              | keyError => simp at hs; subst hs; exact Or.inl h1
+              | valueError => simp at hs
+            | ok v =>
+              rw [hv] at hs; simp at hs; subst hs
+              by_cases e : i = j
+              · subst e
+                right
+                exact ⟨kv, by simp, r, hf, hr, by rw [h1]; simp [setField, hv]⟩
+              · left; rw [h1]; simp [setField, e]
+      · right; exact ⟨x, by simp [hx], r, hf, hr, hv⟩
+
+end
+
+
+section
+variable {DT : Type} (C : DTCodec DT)
+
+theorem astStep_ok (tbl : List OptionRow) (o o1 : Nat → Val DT) (h : astStep C tbl o = .ok o1) (j : Nat) :
+    o1 j = o j ∨
+      (fieldIdx tbl "availabilityStartTime" = some j ∧
+        ((o j = .none ∧ o1 j = globalDefault C tbl j) ∨
+          ∃ d d', o j = .dt d ∧ C.check d = some d' ∧ o1 j = .dt d')) := by
+  unfold astStep at h
+  cases hi : fieldIdx tbl "availabilityStartTime" with
+  | none => rw [hi] at h; simp at h; subst h; exact Or.inl rfl
+  | some i =>
+    rw [hi] at h
+    simp only at h
+    by_cases e : j = i
+    · subst e
+      cases hv : o j with
+      | none => rw [hv] at h; simp at h; subst h; exact Or.inr ⟨rfl, Or.inl ⟨rfl, by simp [setField]⟩⟩
+      | dt d =>
+        rw [hv] at h
+        simp only at h
+        cases hc : C.check d with
+        | none => rw [hc] at h; simp at h
+        | some d' =>
+          rw [hc] at h; simp at h; subst h
+          exact Or.inr ⟨rfl, Or.inr ⟨d, d', rfl, hc, by simp [setField]⟩⟩
+      | _ => rw [hv] at h; simp at h; subst h; exact Or.inl hv
+    · left
+      cases hv : o i with
+      | none => rw [hv] at h; simp at h; subst h; simp [setField, e]
+      | dt d =>
+        rw [hv] at h
+        simp only at h
+        cases hc : C.check d with
+        | none => rw [hc] at h; simp at h
+        | some d' => rw [hc] at h; simp at h; subst h; simp [setField, e]
+      | _ => rw [hv] at h; simp at h; subst h; rfl
+
+/-- what `check_option_values` leaves behind when it accepts: every field unchanged, except that
+availabilityStartTime may have become the global default (was `None`) or aware (was a date-time);
+and the selected DRM systems are known ones -/
+theorem checkOptionValues_ok (K : FilterConsts) (tbl : List OptionRow) (o o1 : Nat → Val DT)
+    (h : checkOptionValues C K tbl o = .ok o1) :
+    astStep C tbl o = .ok o1 ∧ drmNamesOk tbl o = true ∧ utcMethodOk tbl o = true ∧ restOk C K tbl o = true := by
+  unfold checkOptionValues at h
+  by_cases hg : (drmNamesOk tbl o && utcMethodOk tbl o) = true
+  · rw [if_pos hg] at h
+    cases ha : astStep C tbl o with
+    | error e => rw [ha] at h; simp at h
+    | ok o' =>
+      rw [ha] at h
+      simp only at h
+      by_cases hr : restOk C K tbl o = true
+      · rw [if_pos hr] at h
+        have := (Bool.and_eq_true _ _).mp hg
+        exact ⟨by simpa using h, this.1, this.2, hr⟩
+      · rw [if_neg hr] at h; simp at h
+  · rw [if_neg hg] at h; simp at h
+
+theorem drmNamesOk_spec (tbl : List OptionRow) (o : Nat → Val DT) (h : drmNamesOk tbl o = true)
+    (l : List (Bytes × LocSet)) (hl : getField tbl o "drmSelection" = .drm l) : ∀ e ∈ l, e.1 ∈ drmNames := by
+  unfold drmNamesOk at h
+  rw [hl] at h
+  intro e he
+  have := List.all_eq_true.mp h e he
+  simpa using this
+
+end
+
+
+/-! ### every value the parser produces is in the round-trip domain -/
+
+theorem splitOn_no_sep (sep : UInt8) (s : Bytes) : ∀ p ∈ splitOn sep s, sep ∉ p := by
+  induction s with
+  | nil => intro p hp; simp [splitOn] at hp; subst hp; simp
+  | cons b r ih =>
+    by_cases hb : b = sep
+    · subst hb
+      rw [splitOn_cons_sep]
+      intro p hp
+      rcases List.mem_cons.mp hp with rfl | hp
+      · simp
+      · exact ih p hp
+    · cases hs : splitOn sep r with
+      | nil => exact absurd hs (splitOn_ne_nil sep r)
+      | cons q qs =>
+        rw [splitOn_cons_ne sep b r q qs hb hs]
+        intro p hp
+        rcases List.mem_cons.mp hp with rfl | hp
+        · intro hm
+          rcases List.mem_cons.mp hm with e | hm
+          · exact hb e.symm
+          · exact ih q (by rw [hs]; simp) hm
+        · exact ih p (by rw [hs]; simp [hp])
+
+theorem splitOn_two_of_mem (sep : UInt8) (s : Bytes) (h : sep ∈ s) :
+    ∃ a b rest, splitOn sep s = a :: b :: rest := by
+  induction s with
+  | nil => simp at h
+  | cons x r ih =>
+    by_cases hb : x = sep
+    · subst hb
+      rw [splitOn_cons_sep]
+      cases hs : splitOn x r with
+      | nil => exact absurd hs (splitOn_ne_nil x r)
+      | cons q qs => exact ⟨[], q, qs, rfl⟩
+    · have hr : sep ∈ r := by
+        rcases List.mem_cons.mp h with e | hr
+        · exact absurd e.symm hb
+        · exact hr
+      obtain ⟨a, b, rest, hs⟩ := ih hr
+      exact ⟨x :: a, b, rest, splitOn_cons_ne sep x r a (b :: rest) hb hs⟩
+
+theorem exceptMap_ok {ε α β : Type} (f : α → β) (x : Except ε α) (y : β) (h : x.map f = .ok y) :
+    ∃ a, x = .ok a ∧ f a = y := by
+  cases x with
+  | error e => simp [Except.map] at h
+  | ok a => simp [Except.map] at h; exact ⟨a, rfl, h⟩
+
+theorem locNames_nonempty : ∀ n l, locNames.lookup n = some l → ∀ s, LocSet.union l s ≠ LocSet.empty := by
+  intro n l h s
+  have : l = ⟨true, false, false⟩ ∨ l = ⟨false, true, false⟩ ∨ l = ⟨false, false, true⟩ := by
+    unfold locNames at h
+    simp only [List.lookup] at h
+    split at h
+    · simp at h; exact Or.inl h.symm
+    · split at h
+      · simp at h; exact Or.inr (Or.inl h.symm)
+      · split at h
+        · simp at h; exact Or.inr (Or.inr h.symm)
+        · simp at h
+  obtain ⟨c, m, p⟩ := s
+  rcases this with rfl | rfl | rfl <;> simp [LocSet.union, LocSet.empty]
+
+theorem locSetOf_nonempty (e : Err) (n : Bytes) (r : List Bytes) (s : LocSet)
+    (h : locSetOf e (n :: r) = .ok s) : s ≠ LocSet.empty := by
+  unfold locSetOf at h
+  cases hl : locNames.lookup n with
+  | none => rw [hl] at h; simp at h
+  | some l =>
+    rw [hl] at h
+    simp only at h
+    obtain ⟨a, _, ha⟩ := exceptMap_ok _ _ _ h
+    rw [← ha]
+    exact locNames_nonempty n l hl a
+
+theorem mapM_ok_mem {α β : Type} (f : α → Except Err β) (l : List α) (r : List β)
+    (h : l.mapM f = .ok r) : ∀ y ∈ r, ∃ x ∈ l, f x = .ok y := by
+  induction l generalizing r with
+  | nil => simp [List.mapM_nil] at h; cases h; simp
+  | cons a t ih =>
+    rw [List.mapM_cons] at h
+    cases ha : f a with
+    | error e => rw [ha] at h; cases h
+    | ok b =>
+      rw [ha] at h
+      cases ht : t.mapM f with
+      | error e => rw [ht] at h; cases h
+      | ok bs =>
+        rw [ht] at h
+        have : r = b :: bs := by cases h; rfl
+        subst this
+        intro y hy
+        rcases List.mem_cons.mp hy with rfl | hy
+        · exact ⟨a, by simp, ha⟩
+        · obtain ⟨x, hx, hfx⟩ := ih bs ht y hy
+          exact ⟨x, by simp [hx], hfx⟩
+
+theorem all_ne_empty : LocSet.all ≠ LocSet.empty := by decide
+
+theorem drmItem_locs (item : Bytes) (e : Bytes × LocSet) (h : drmItem item = .ok e) : e.2 ≠ LocSet.empty := by
+  unfold drmItem at h
+  by_cases hc : item.contains 45 = true
+  · rw [if_pos hc] at h
+    obtain ⟨a, b, rest, hs⟩ := splitOn_two_of_mem 45 item ((contains_iff _ _).mp hc)
+    rw [hs] at h
+    simp only at h
+    obtain ⟨s, hs', he⟩ := exceptMap_ok _ _ _ h
+    rw [← he]
+    exact locSetOf_nonempty _ b rest s hs'
+  · rw [if_neg hc] at h
+    cases h
+    exact all_ne_empty
+
+/-- every entry of a parsed DRM selection has a non-empty set of locations -/
+theorem drmFromString_locs (s : Bytes) (l : List (Bytes × LocSet)) (h : drmFromString s = .ok l) :
+    ∀ e ∈ l, e.2 ≠ LocSet.empty := by
+  unfold drmFromString at h
+  simp only at h
+  split at h
+  · cases h; simp
+  · split at h
+    · split at h
+      · rename_i hc
+        obtain ⟨a, b, rest, hs⟩ := splitOn_two_of_mem 45 (lower s) ((contains_iff _ _).mp hc)
+        rw [hs] at h
+        simp only [List.drop_succ_cons, List.drop_zero] at h
+        obtain ⟨ls, hls, he⟩ := exceptMap_ok _ _ _ h
+        rw [← he]
+        intro e hmem
+        obtain ⟨n, _, rfl⟩ := List.mem_map.mp hmem
+        exact locSetOf_nonempty _ b rest ls hls
+      · cases h
+        intro e hmem
+        obtain ⟨n, _, rfl⟩ := List.mem_map.mp hmem
+        exact all_ne_empty
+    · intro e he
+      obtain ⟨x, _, hx⟩ := mapM_ok_mem drmItem _ l h e he
+      exact drmItem_locs x e hx
+
+
+section
+variable {DT : Type} (C : DTCodec DT)
+
+/-- what `from_string` returns is a canonical value of its kind – with three explicit corners:
+an escaped licence URL that un-escapes to a spelling of `none`, a positive-integer option whose
+own default is not positive, and a DRM selection naming an unknown system (which
+`check_option_values` refuses) -/
+theorem fromString_canonical (k : Kind) (s : Bytes) (v : Val DT) (h : fromString C k s = .ok v)
+    (hurl : k = .quotedUrl → isNoneCI s = false → isNoneCI (unquotePlus s) = false)
+    (hpos : ∀ d, k = .posIntOrDefault d → 1 ≤ d)
+    (hdrm : ∀ l, v = .drm l → ∀ e ∈ l, e.1 ∈ drmNames) : Canonical k v := by
+  cases k with
+  | bool => simp [fromString] at h; subst h; trivial
+  | intOrNone =>
+    simp only [fromString] at h
+    obtain ⟨a, _, ha⟩ := exceptMap_ok _ _ _ h
+    subst ha; cases a <;> trivial
+  | floatOrNone =>
+    simp only [fromString] at h
+    split at h
+    · cases h; trivial
+    · split at h
+      · cases h; trivial
+      · cases h
+  | strOrNone =>
+    simp only [fromString] at h
+    by_cases hn : isNoneCI s = true
+    · simp [hn] at h; subst h; trivial
+    · simp [hn] at h; subst h; simpa [Canonical] using hn
+  | strRaw => simp [fromString] at h; subst h; trivial
+  | listJoin =>
+    simp only [fromString] at h
+    cases h
+    by_cases hn : isNoneCI s = true
+    · simp [hn, Canonical]
+    · simp only [hn, Bool.false_eq_true, if_false, Canonical]
+      intro i hi
+      have := List.mem_filter.mp hi
+      exact ⟨splitOn_no_sep 44 s i this.1, by simpa using this.2⟩
+  | drmSelection =>
+    simp only [fromString] at h
+    obtain ⟨l, hl, rfl⟩ := exceptMap_ok _ _ _ h
+    intro e he
+    exact ⟨hdrm l rfl e he, drmFromString_locs s l hl e he⟩
+  | quotedUrl =>
+    simp only [fromString] at h
+    by_cases hn : isNoneCI s = true
+    · simp [hn] at h; subst h; trivial
+    · simp [hn] at h; subst h
+      simpa [Canonical] using hurl rfl (by simpa using hn)
+  | astDateTime =>
+    simp only [fromString] at h
+    split at h
+    · rename_i hc
+      cases h
+      simpa [Canonical] using hc
+    · obtain ⟨a, _, ha⟩ := exceptMap_ok _ _ _ h
+      subst ha; cases a <;> trivial
+  | dtOrNone =>
+    simp only [fromString] at h
+    split at h
+    · cases h; trivial
+    · obtain ⟨a, _, ha⟩ := exceptMap_ok _ _ _ h
+      subst ha; cases a <;> trivial
+  | errorList =>
+    simp only [fromString] at h
+    split at h
+    · cases h; trivial
+    · obtain ⟨a, _, ha⟩ := exceptMap_ok _ _ _ h
+      subst ha; trivial
+  | intOrDefault d =>
+    simp only [fromString] at h
+    obtain ⟨a, _, ha⟩ := exceptMap_ok _ _ _ h
+    subst ha; trivial
+  | posIntOrDefault d =>
+    simp only [fromString] at h
+    split at h
+    · cases h
+    · cases h; exact hpos d rfl
+    · rename_i z _
+      split at h
+      · cases h
+      · cases h; show 1 ≤ z; omega
+
+end
+
+
+section
+variable {DT : Type} (C : DTCodec DT)
+
+/-- names of the fields `ServeManifest.get` / `calculate_options` assign after parsing -/
+def handlerFields : List String := ["mode", "patch", "segmentTimeline"]
+
+/-- the intermediate results of an accepted manifest request -/
+theorem serve_stages (K : FilterConsts) (tbl : List OptionRow) (m : ManifestRow) (mode : Bytes)
+    (args : List (Bytes × Bytes)) (dflt : Nat → Val DT) (of : Opts DT)
+    (hs : serveManifestOptions C K tbl m mode args dflt = .ok of) :
+    ∃ o0 o1 o5 : Nat → Val DT,
+      convertOptions C tbl dflt (applyRestrictions m.restrictions args) = .ok o0 ∧
+      checkOptionValues C K tbl o0 = .ok o1 ∧
+      of = removeUnused K tbl mode o5 ∧
+      ∀ i r, tbl[i]? = some r → r.fieldName ∉ handlerFields →
+        o5 i = removeUnsupported K tbl m.features dflt o1 i := by
+  unfold serveManifestOptions at hs
+  cases hc : calculateOptions C K tbl mode args dflt (some m.features) (some m.restrictions) with
+  | error e => rw [hc] at hs; simp at hs
+  | ok o3 =>
+    rw [hc] at hs
+    simp only at hs
+    unfold calculateOptions at hc
+    simp only at hc
+    cases h0 : convertOptions C tbl dflt (applyRestrictions m.restrictions args) with
+    | error e => rw [h0] at hc; simp at hc
+    | ok o0 =>
+      rw [h0] at hc
+      simp only at hc
+      cases h1 : checkOptionValues C K tbl o0 with
+      | error e => rw [h1] at hc; simp at hc
+      | ok o1 =>
+        rw [h1] at hc
+        simp only [Except.ok.injEq] at hc
+        by_cases hrej : (truthy (getField tbl (forcePatch tbl mode o3) "patch") &&
+            !m.features.contains "segmentTimeline") = true
+        · rw [if_pos hrej] at hs; simp at hs
+        · rw [if_neg hrej] at hs
+          simp only [Except.ok.injEq] at hs
+          refine ⟨o0, o1, _, rfl, h1, hs.symm, ?_⟩
+          intro i r hr hn
+          have hm : r.fieldName ≠ "mode" := fun e => hn (by simp [handlerFields, e])
+          have hp : r.fieldName ≠ "patch" := fun e => hn (by simp [handlerFields, e])
+          have ht : r.fieldName ≠ "segmentTimeline" := fun e => hn (by simp [handlerFields, e])
+          have e3 : o3 i = removeUnsupported K tbl m.features dflt o1 i := by
+            rw [← hc]; exact setFieldByName_other tbl _ "mode" _ i r hr hm
+          have e4 : forcePatch tbl mode o3 i = o3 i := by
+            unfold forcePatch
+            split
+            · exact setFieldByName_other tbl _ "patch" _ i r hr hp
+            · rfl
+          rw [← e3, ← e4]
+          unfold forceTimeline
+          split
+          · exact setFieldByName_other tbl _ "segmentTimeline" _ i r hr ht
+          · split
+            · exact setFieldByName_other tbl _ "segmentTimeline" _ i r hr ht
+            · rfl
+
+end
+
+
 end DashLive.Options
